@@ -449,3 +449,94 @@ func reachesInstr(fn *ssa.Function, pred func(ssa.Instruction) bool, depth int, 
 	})
 	return found
 }
+
+// staleOnceAudit: a sync.Once body must not compute its result from a package-level variable that the
+// program assigns again later (outside package initialisation): the once-built value keeps the first
+// content for the life of the process, whatever is loaded afterwards. Returns the number of Once bodies examined.
+func staleOnceAudit(c *Ctx, rule string, rels []string) int {
+	// globals assigned outside init (function -> global)
+	type gstore struct {
+		fn  *ssa.Function
+		pos token.Pos
+	}
+	reassigned := map[*ssa.Global][]gstore{}
+	for _, rel := range c.modulePkgs() {
+		for _, fn := range c.srcFuncs(rel) {
+			if topParent(fn).Name() == "init" || strings.HasPrefix(topParent(fn).Name(), "init#") {
+				continue
+			}
+			eachInstr(fn, func(_ *ssa.BasicBlock, _ int, ins ssa.Instruction) {
+				if st, ok := ins.(*ssa.Store); ok {
+					if g, ok := st.Addr.(*ssa.Global); ok {
+						reassigned[g] = append(reassigned[g], gstore{fn, st.Pos()})
+					}
+				}
+			})
+		}
+	}
+	n := 0
+	for _, rel := range rels {
+		for _, fn := range c.srcFuncs(rel) {
+			eachCall(fn, func(call ssa.CallInstruction) {
+				if callName(call) != "sync.Once.Do" {
+					return
+				}
+				var body *ssa.Function
+				switch a := call.Common().Args[1].(type) {
+				case *ssa.MakeClosure:
+					body, _ = a.Fn.(*ssa.Function)
+				case *ssa.Function:
+					body = a
+				}
+				if body == nil {
+					return
+				}
+				n++
+				k := 0
+				seen := map[*ssa.Global]bool{}
+				for _, g := range withAnon(body) {
+					eachInstr(g, func(_ *ssa.BasicBlock, _ int, ins ssa.Instruction) {
+						u, ok := ins.(*ssa.UnOp)
+						if !ok || u.Op != token.MUL {
+							return
+						}
+						gl, ok := u.X.(*ssa.Global)
+						if !ok || seen[gl] {
+							return
+						}
+						var outside []gstore
+						for _, s := range reassigned[gl] {
+							if topParent(s.fn) != topParent(body) {
+								outside = append(outside, s)
+							}
+						}
+						if len(outside) == 0 {
+							return
+						}
+						seen[gl] = true
+						k++
+						c.ob(rule, fnKey(body)+"#once-body-reads-reassigned-global:"+gl.Name(), u.Pos(), false,
+							"this sync.Once body builds its result from package variable "+gl.Name()+", which "+fnKey(outside[0].fn)+" assigns again later (e.g. on every reload / route setup): the once-built value keeps what the variable held the first time, so everything loaded afterwards is checked or served against stale data")
+					})
+				}
+				if k == 0 {
+					c.ob(rule, fnKey(body)+"#once-body-reads-no-reassigned-global", call.Pos(), true, "")
+				}
+			})
+		}
+	}
+	return n
+}
+
+// fieldOfLoad: v is a load of struct field F of named type T (through a pointer): returns T's name and F.
+func fieldOfLoad(v ssa.Value) (string, string, bool) {
+	u, ok := v.(*ssa.UnOp)
+	if !ok || u.Op != token.MUL {
+		return "", "", false
+	}
+	named, fld, ok := fieldOf(u.X)
+	if !ok || named == nil {
+		return "", "", false
+	}
+	return named.Obj().Name(), fld, true
+}
